@@ -477,6 +477,19 @@ def r16_15(ctx: Ctx, rule: str = "R16.15") -> None:
                 if q.derives_from(f, x.left.value, lambda v: isinstance(v, ast.Call) and (dotted(v.func) or "").endswith("normpath"), depth=3) and any(
                         e.kind == "true" and any(isinstance(n_.ast, ast.Return) and isinstance(n_.ast.value, ast.Constant) and n_.ast.value.value is False for n_ in e.succ) for e in t.succ):
                     ok = True
+    raw_ok = False
+    for t in cfg.nodes:
+        if t.kind != "test":
+            continue
+        for x in ast.walk(t.ast):
+            if isinstance(x, ast.Compare) and isinstance(x.left, ast.Subscript) and isinstance(x.left.slice, ast.Constant) and x.left.slice.value == 1 \
+                    and any(isinstance(k, ast.Constant) and k.value == ":" for k in x.comparators) and isinstance(x.left.value, ast.Name):
+                if not q.derives_from(f, x.left.value, lambda v: isinstance(v, ast.Call) and (dotted(v.func) or "").endswith("normpath"), depth=3) and any(
+                        e.kind == "true" and any(isinstance(n_.ast, ast.Return) and isinstance(n_.ast.value, ast.Constant) and n_.ast.value.value is False for n_ in e.succ) for e in t.succ):
+                    raw_ok = True
+    ctx.check(raw_ok, rule, f, f.node, "the drive test is applied to the name as written, too",
+              "check_archive_path looks for a drive prefix in the resolved name only: normpath('c:/../x') is 'x', so 'c:/../x', './c:/../x' and 'c:\\..\\x' are accepted and stored - "
+              "drive-prefixed names that are absolute (or drive relative) where drives exist", construct="drive prefix of the written name")
     ctx.check(ok, rule, f, f.node, "the drive test is applied to what the name resolves to",
               "check_archive_path looks for a drive prefix at the front of the raw text only: 'a/../c:/x', 'a/b/../../c:/x' (accepted, stored verbatim) resolve to 'c:/x', "
               "an absolute name where drives exist, while 'c:/x' itself is refused", construct="drive prefix after resolution")
